@@ -112,14 +112,16 @@ class OptimalScaling(Contract):
 
     def result(self, c, a):
         data = a.data
-        d = c.A(data)
+        d, w, p1 = c.A(data), c.A(a.weights), c.A(a.pattern1)
         shape = tuple(d.shape[:-1])
-        r = c.fresh_array('os_r', shape)
+        N = w.n
+        m11 = c.Sum(N, lambda j: w[j] * p1[j] * p1[j])
+        # definitional: the unique solution of the normal equation (m11 != 0 is required)
+        fn = lambda idx: c.Sum(N, lambda j: d[tuple(idx) + (j,)] * p1[j] * w[j]) / m11
         if d.mask is not None:
             from sedvc.values import Masked
-            b = c.A(r)
-            return Masked(shape, b.fn, 'real', d.mrank, d.mask, data.mkey)
-        return r
+            return Masked(shape, fn, 'real', d.mrank, d.mask, data.mkey)
+        return c.defined_array(shape, fn)
 
     def ensures(self, c, a, result, old):
         d, w, p1, R = c.A(a.data), c.A(a.weights), c.A(a.pattern1), c.A(result)
@@ -161,8 +163,11 @@ class ChiSquared(Contract):
         return {'confidence_lt_1': c.forall(v.n, lambda j: implies(bor(v[j] == 2, v[j] == 3), e[j] < 1), 'conf<1')}
 
     def result(self, c, a):
-        m = c.A(a.model)
-        return c.fresh_array('chi2', tuple(m.shape[:-1]))
+        v, d, e, w, m = c.A(a.valid), c.A(a.data), c.A(a.error), c.A(a.weight), c.A(a.model)
+        N = v.n
+        # definitional: the result IS the sum of the per-point terms
+        return c.defined_array(tuple(m.shape[:-1]),
+                               lambda i: c.Sum(N, lambda j: chi2_term(c, v[j], d[tuple(i) + (j,)], m[tuple(i) + (j,)], e[j], w[j]), opaque=True))
 
     def ensures(self, c, a, result, old):
         v, d, e, w, m, R = c.A(a.valid), c.A(a.data), c.A(a.error), c.A(a.weight), c.A(a.model), c.A(result)
